@@ -355,6 +355,7 @@ EndReason Sim::run() {
 
 void Sim::stop_and_join(uint64_t unwind_budget) {
     stopping = true;
+    unwinding = true;
     step_budget = steps + unwind_budget;
     if (!all_programs_finished()) {
         Task *n = pick();
@@ -365,10 +366,12 @@ void Sim::stop_and_join(uint64_t unwind_budget) {
         end_reason = EndReason::BUDGET;
         stat["unwind_stuck"] = 1;
         g_running = false;
+        unwinding = false;
         return;
     }
     for (auto &t : tasks) pthread_join(t->th, nullptr);
     g_running = false;
+    unwinding = false;
 }
 
 void yield_point(const char *what) {
@@ -429,6 +432,7 @@ void Sim::violation(const std::string &oracle, const char *fmt, ...) {
     va_start(ap, fmt);
     vsnprintf(buf, sizeof(buf), fmt, ap);
     va_end(ap);
+    if (unwinding) return;   // the run is over; what happens while tasks are forced out of their waits is not the system's behaviour
     std::string oid = oracle;
     auto al = alias.find(oracle);
     if (al != alias.end()) oid = al->second;
